@@ -30,8 +30,9 @@ PYINT_METHODS = {"item", "tell", "fileno", "index", "count", "bit_length", "__le
 
 
 class KindCtx:
-    def __init__(self, interp=None, param_kinds=None, attr_kinds=None):
+    def __init__(self, interp=None, param_kinds=None, attr_kinds=None, func_kinds=None):
         self.interp = interp
+        self.func_kinds = func_kinds or {}  # fq of an un-inlined program function -> kind of its result
         self.param_kinds = param_kinds or {}
         self.attr_kinds = attr_kinds or {}
 
@@ -161,6 +162,8 @@ def kind(t, ctx=None, depth=0):
         args = t.args[1]
         if nm in PYINT_CALLS:
             return PYINT
+        if t.args[0].op == "func" and t.args[0].args[0] in ctx.func_kinds:
+            return ctx.func_kinds[t.args[0].args[0]]
         if nm == "builtins.float":
             return FLOAT
         if nm in ARRAY_MAKERS:
